@@ -4,7 +4,7 @@
    built on Bind.step, so that whole programs run on the real interpreter can be compared with
    the model.  Nothing here is used by the theorems (they hold for every [eval]). *)
 From Coq Require Import ZArith List String Ascii Bool.
-From NG Require Import Val.Value Val.Match Val.MatchRun V2.Bind.
+From NG Require Import Gen.C08Consts Val.Value Val.Match Val.MatchRun V2.Bind.
 Import ListNotations.
 Open Scope string_scope.
 
@@ -145,6 +145,14 @@ Definition started_ok (pattern received : ctx) : bool :=
 
 Definition is_activate (fm : form) : bool := match fm with FActivate => true | _ => false end.
 
+(* does the FlowStarted match of this call form carry the call arguments? (read from the
+   current expansion.py by translator/gen_c08.py) *)
+Definition match_with_args (fm : form) : bool :=
+  match fm with
+  | FActivate => started_match_call_args_activate
+  | _ => started_match_call_args_start
+  end.
+
 Fixpoint exec (fuel : nat) (P : prog) (X : xstate) (i : nat) (body : list stmt) : xstate * outcome :=
   match fuel with
   | O => (X, OFuel)
@@ -206,7 +214,7 @@ Fixpoint exec (fuel : nat) (P : prog) (X : xstate) (i : nat) (body : list stmt) 
                           | None => (X2, OFailed)
                           | Some ec2 =>
                               (* the match pattern is evaluated when the event arrives *)
-                              let pat := started_pattern R (eval_args cexpr ceval ec2 d) in
+                              let pat := started_pattern (match_with_args fm) R (eval_args cexpr ceval ec2 d) in
                               let rcv := started_args (r_instance_uid R) (r_flow_id R) (m_args (x_st X2) callee) in
                               if negb (started_ok pat rcv) then (X2, OStuck) else
                               match out with
